@@ -22,6 +22,20 @@ type PropSel struct {
 	Not   string `json:"not_kinds"` // optional regexp on obligation kinds to leave to another property's check
 }
 
+// WitnessDef: concrete programs run against the real code (go test -overlay).
+// They carry system-level known findings that no obligation can be attached
+// to (the failing mechanism sits in closures); labelled "witness", never
+// counted as proved. The test prints one line per case:
+//
+//	GOVC-WITNESS-CASE <case-id> ok|FAIL <detail>
+type WitnessDef struct {
+	Name string `json:"name"`
+	Pkg  string `json:"pkg"`
+	File string `json:"file"` // test source under /verif/witness
+	Test string `json:"test"`
+	What string `json:"what"`
+}
+
 type BoundedDef struct {
 	Name string `json:"name"`
 	Pkg  string `json:"pkg"`
@@ -36,6 +50,7 @@ type PropDef struct {
 	Level     string       `json:"level"`
 	Undecided []string     `json:"undecided_clauses"`
 	Thorough  []PropSel    `json:"thorough_extra"`
+	Witnesses []WitnessDef `json:"witnesses"`
 }
 
 type Finding struct {
@@ -400,6 +415,7 @@ func runProperty(ld *Loader, verif, prop, tier, dir string, timeout, workers int
 	exit := 0
 	// bounded stand-ins (never counted as proved)
 	var boundedEv []map[string]interface{}
+	var kfWitness []string
 	boundedFailures := 0
 	for _, bd := range def.Bounded {
 		res, failure, err := runBounded(ld, verif, bd, dir)
@@ -419,6 +435,44 @@ func runProperty(ld *Loader, verif, prop, tier, dir string, timeout, workers int
 			ev["failure"] = failure
 		}
 		boundedEv = append(boundedEv, ev)
+	}
+	// witness programs: system-level findings carried by concrete programs
+	var witnessEv []map[string]interface{}
+	for _, wd := range def.Witnesses {
+		if onlyFunc != "" {
+			break
+		}
+		cases, out, err := runWitness(ld, verif, wd, dir)
+		if err != nil {
+			fmt.Fprintf(os.Stderr, "govc: witness %s could not run: %v\n", wd.Name, err)
+			return 2
+		}
+		ev := map[string]interface{}{"name": wd.Name, "what": wd.What, "label": "witness (concrete programs on the real code; never counted as proved)", "cases": cases}
+		var ids []string
+		for id := range cases {
+			ids = append(ids, id)
+		}
+		sort.Strings(ids)
+		for _, id := range ids {
+			if !strings.HasPrefix(cases[id], "FAIL") {
+				continue
+			}
+			key := "witness:" + wd.Name + ":" + id
+			if f, isKnown := known[key]; isKnown {
+				fmt.Printf("KNOWN-FINDING: property=%s %s: %s\n", prop, key, f.WhatFails)
+				kfWitness = append(kfWitness, key+": "+f.WhatFails)
+				continue
+			}
+			os.MkdirAll(repDir, 0o755)
+			path := filepath.Join(repDir, "witness_"+sanitize(wd.Name+"_"+id)+".json")
+			jb, _ := json.MarshalIndent(map[string]interface{}{"property": prop, "kind": "witness program", "witness": wd.Name, "case": id, "result": cases[id],
+				"test_source_file": filepath.Join(verif, "witness", wd.File), "output": truncate(out, 3000), "reproduced": true}, "", " ")
+			os.WriteFile(path, jb, 0o644)
+			fmt.Printf("VIOLATION property=%s replay=%s witness=%s case=%s\n", prop, path, wd.Name, id)
+			exit = 1
+			boundedFailures++
+		}
+		witnessEv = append(witnessEv, ev)
 	}
 	for _, o := range violations {
 		os.MkdirAll(repDir, 0o755)
@@ -461,6 +515,7 @@ func runProperty(ld *Loader, verif, prop, tier, dir string, timeout, workers int
 	for _, f := range knownHit {
 		kf = append(kf, f.Obligation+": "+f.WhatFails)
 	}
+	kf = append(kf, kfWitness...)
 	var sweep map[string]interface{}
 	if tier == "thorough" && len(violations) == 0 && boundedFailures == 0 && os.Getenv("GOVC_NO_MUTATION") == "" {
 		sweep = mutationSweep(ld, verif, prop, sweepTargets, int64(seed), 2, 160, 8)
@@ -504,6 +559,7 @@ func runProperty(ld *Loader, verif, prop, tier, dir string, timeout, workers int
 			"vacuity":                          map[string]int{"cover_checks": covers, "cover_ok": coversOK},
 			"known_findings":                   kf,
 			"bounded":                          boundedEv,
+			"witness_programs":                 witnessEv,
 			"undecided_clauses":                def.Undecided,
 			"mutation_sweep":                   sweep,
 			"cross_checked":                    crossStats(),
@@ -523,8 +579,48 @@ func runProperty(ld *Loader, verif, prop, tier, dir string, timeout, workers int
 		fmt.Fprintln(os.Stderr, "cannot write evidence:", err)
 		return 2
 	}
-	fmt.Printf("%s %s: %d obligations, %d discharged, %d known findings, %d violations, %d functions, %.1fs\n", prop, tier, total, discharged, len(knownHit), len(violations)+boundedFailures, len(fns), time.Since(start).Seconds())
+	fmt.Printf("%s %s: %d obligations, %d discharged, %d known findings, %d violations, %d functions, %.1fs\n", prop, tier, total, discharged, len(knownHit)+len(kfWitness), len(violations)+boundedFailures, len(fns), time.Since(start).Seconds())
 	return exit
+}
+
+// runWitness runs a witness test against the real code and returns case-id ->
+// "ok ..." | "FAIL ...".
+func runWitness(ld *Loader, verif string, wd WitnessDef, dir string) (map[string]string, string, error) {
+	src, err := os.ReadFile(filepath.Join(verif, "witness", wd.File))
+	if err != nil {
+		return nil, "", err
+	}
+	p, err := ld.Load(modPath + "/" + wd.Pkg)
+	if err != nil {
+		return nil, "", err
+	}
+	tdir, err := os.MkdirTemp(dir, "wt")
+	if err != nil {
+		return nil, "", err
+	}
+	testFile := filepath.Join(tdir, "zz_govc_witness_test.go")
+	os.WriteFile(testFile, src, 0o644)
+	ov := map[string]map[string]string{"Replace": {filepath.Join(p.Dir, "zz_govc_witness_test.go"): testFile}}
+	ob, _ := json.Marshal(ov)
+	ovFile := filepath.Join(tdir, "ov.json")
+	os.WriteFile(ovFile, ob, 0o644)
+	cmd := exec.Command("go", "test", "-overlay", ovFile, "-vet=off", "-timeout", "120s", "-count=1", "-v", "-run", "^"+wd.Test+"$", ".")
+	cmd.Dir = p.Dir
+	cmd.Env = append(os.Environ(), "GOFLAGS=-mod=mod", "GOPROXY=off", "GOSUMDB=off", "GOTOOLCHAIN=local")
+	out, _ := cmd.CombinedOutput()
+	cases := map[string]string{}
+	for _, l := range strings.Split(string(out), "\n") {
+		if i := strings.Index(l, "GOVC-WITNESS-CASE "); i >= 0 {
+			f := strings.SplitN(strings.TrimSpace(l[i+len("GOVC-WITNESS-CASE "):]), " ", 2)
+			if len(f) == 2 {
+				cases[f[0]] = f[1]
+			}
+		}
+	}
+	if len(cases) == 0 {
+		return nil, string(out), fmt.Errorf("no case output: %s", truncate(string(out), 500))
+	}
+	return cases, string(out), nil
 }
 
 func runBounded(ld *Loader, verif string, bd BoundedDef, dir string) (map[string]interface{}, string, error) {
